@@ -33,6 +33,8 @@ NS_CHOICES = [('omitted', None), ('none', None), ('empty', {}), ('map', {'x': 'u
               ('default-xhtml', {'': trees.NS_XHTML})]
 CFG = witness.Cfg(nth=True, nth_of=True, scope=True)
 FGCFG = FG.Cfg(scope=False, contains_alias=False)
+MEMO_POOL = (':default', 'form :default', ':indeterminate', ':has(> :default)', ':lang(en)', ':lang("")', ':dir(rtl)',
+             ':not(:default)', 'button:default, input:default', ':is(:dir(ltr), :dir(rtl))', ':checked')
 
 
 def ids(lst):
@@ -47,7 +49,7 @@ def quiet(fn, *a, **k):
 
 def gen_case(ch, tier):
     if ch.p(0.25):
-        recipe, _fl = htmldoc.gen_html_doc(ch, kinds=htmldoc.HTML_KINDS, depth=2)
+        recipe, _fl = htmldoc.gen_html_doc(ch, kinds=htmldoc.HTML_KINDS, depth=2, memo_rich=True)
     else:
         recipe = trees.gen_recipe(ch, max_elems=10 if tier == 'quick' else 20)
     doc = trees.materialise(recipe)
@@ -68,7 +70,7 @@ def gen_case(ch, tier):
         text = S.render_list(sel)
     else:
         sel = None
-        text = S.render_list(FG.gen_list(ch, FGCFG, max_items=2))
+        text = ch.pick(MEMO_POOL) if ch.p(0.4) else S.render_list(FG.gen_list(ch, FGCFG, max_items=2))
     args = {
         'ns': ch.pick(NS_CHOICES)[0],
         'flags': ch.pick(('omitted', 'zero', 'debug')),
